@@ -227,6 +227,16 @@ class Built:
         raise ValueError(k)
 
     def build(self, copy=False, entry="builder"):
+        if entry == "copy_late" and not self.groups:
+            # values are assigned to the source nodes AFTER the dependent nodes were constructed and outside of any model (nothing can be
+            # flagged there); then the builder makes a model of deep copies
+            gb = lsl.GraphBuilder()
+            gb.add(*self.objs)
+            for i in self.sources():
+                self.value_node(i).value = _val(self.decls[i], self.decls[i]["value"] + 7)
+            self.model = gb.build_model(copy=True)
+            self.copied = True
+            return self.model
         if entry == "model" and not self.groups and not copy:
             self.model = lsl.Model(list(self.objs))        # documented shortcut: Model(...) grows the graph through a temporary builder
             return self.model
@@ -245,6 +255,8 @@ class Built:
     def value_node(self, i, model=None):
         o = self.objs[i]
         n = o.value_node if isinstance(o, lsl.Var) else o
+        if getattr(self, "copied", False) and (model is not None or getattr(self, "model", None) is not None):
+            return (model if model is not None else self.model).nodes[n.name]       # the model holds deep copies of the declared objects
         if model is not None and model is not getattr(self, "model", None):
             return model.nodes[n.name]
         return n
